@@ -46,7 +46,7 @@ COMPONENTS = {
     "stub": ["file system (SimFS image + per-path fault plan)", "the consumer in reader-level "
              "walks"],
 }
-PROBES = ["pushback_while_include_reader_active", "include_exhausted_with_items_pushed_back",
+PROBES = ["only_in_cwd_off_path", "pushback_while_include_reader_active", "include_exhausted_with_items_pushed_back",
           "nested_depth_2", "shadowing_decoy_present", "include_first_line_of_main",
           "include_last_line_of_main", "fragment_starts_with_label", "fragment_starts_with_c",
           "unresolved_include_checked", "resolved_include_compared", "directory_named_like_file",
@@ -172,8 +172,15 @@ def generate(run_seed, cfg):
     for k, nm in enumerate(names):
         place[nm] = {"real": [], "decoy": [], "isdir": []}
         if absent_mode and k == 0:
-            how = sw.choice(["absent", "absent", "isdir", "off_path"])
+            how = sw.choice(["absent", "absent", "isdir", "off_path", "cwd_only"])
             absent.append(nm)
+            if how == "cwd_only":
+                # present only in the process's current directory, which is not on the explicit
+                # include path: must stay unresolved
+                if use_default_dirs:
+                    how = "absent"
+                else:
+                    place[nm]["real"].append(nm)
             if how == "isdir":
                 place[nm]["isdir"].append("%s/%s" % (include_dirs[0], nm))
             elif how == "off_path":
@@ -398,6 +405,8 @@ def execute(case):
                 probe("directory_named_like_file")
             if how == "off_path":
                 probe("only_off_path")
+            if how == "cwd_only":
+                probe("only_in_cwd_off_path")
         if case.get("bad_utf8"):
             probe("invalid_utf8_fragment")
 
